@@ -687,7 +687,8 @@ pub fn gen_layer(rng: &mut Rng, o: &GenOpts, name: Vec<u8>) -> ILayer {
 					continue;
 				}
 				used.push(keys[ki].clone());
-				let vi = if keys[ki] == o.keys[0] && !o.id_values.is_empty() && rng.chance(3, 4) {
+				let idlike = keys[ki] == o.keys[0] || (!keys[ki].is_empty() && keys[ki].len() <= o.keys[0].len() + 1 && keys[ki].to_ascii_lowercase().starts_with(&o.keys[0].to_ascii_lowercase()[..1]));
+				let vi = if idlike && !o.id_values.is_empty() && rng.chance(3, 4) {
 					// the id field: prefer an id value if the table holds one
 					let want = rng.pick(&o.id_values).sem();
 					values.iter().position(|v| v.sem() == want).unwrap_or(rng.below(values.len() as u64) as usize)
